@@ -438,6 +438,185 @@ pub fn template_promotion(rng: &mut Rng) -> Pos {
     }
 }
 
+/// (c) pawn race: a double step next to an enemy pawn, answered by a promotion, answered by a
+/// promotion - state that must expire (the en-passant target) meets moves that are built by a
+/// separate code path. Returns the start and the forced prefix.
+pub fn template_pawn_race(rng: &mut Rng) -> (Pos, Vec<Mv>) {
+    loop {
+        let mut p = Pos::empty();
+        // white pawn on its home rank with a black pawn beside its double-step square
+        let f = rng.below(8) as i32;
+        let df = if rng.chance(1, 2) { 1 } else { -1 };
+        if !(0..8).contains(&(f + df)) {
+            continue;
+        }
+        p.sq[sq(f, 1) as usize] = PAWN;
+        p.sq[sq(f + df, 3) as usize] = PAWN | BLACK;
+        // promotion candidates for both sides on other files
+        let files: Vec<i32> = (0..8).filter(|x| *x != f && *x != f + df).collect();
+        let bf = *rng.pick(&files);
+        p.sq[sq(bf, 1) as usize] = PAWN | BLACK;
+        let wf = *rng.pick(&files);
+        if p.sq[sq(wf, 6) as usize] != 0 {
+            continue;
+        }
+        p.sq[sq(wf, 6) as usize] = PAWN;
+        // a second pair now and then
+        if rng.chance(1, 3) {
+            let x = *rng.pick(&files);
+            if p.sq[sq(x, 6) as usize] == 0 && p.sq[sq(x, 1) as usize] == 0 {
+                p.sq[sq(x, if rng.chance(1, 2) { 6 } else { 1 }) as usize] = PAWN | if rng.chance(1, 2) { BLACK } else { 0 };
+            }
+        }
+        // things to capture while promoting
+        for _ in 0..rng.below(3) {
+            let x = rng.below(8) as i32;
+            let (r, c) = if rng.chance(1, 2) { (7, BLACK) } else { (0, 0) };
+            if p.sq[sq(x, r) as usize] == 0 {
+                p.sq[sq(x, r) as usize] = *rng.pick(&[ROOK, KNIGHT, BISHOP]) | c;
+            }
+        }
+        let wk = sq(rng.below(8) as i32, 2 + rng.below(4) as i32);
+        let bk = sq(rng.below(8) as i32, 2 + rng.below(4) as i32);
+        if p.sq[wk as usize] != 0 || p.sq[bk as usize] != 0 || wk == bk {
+            continue;
+        }
+        p.sq[wk as usize] = KING;
+        p.sq[bk as usize] = KING | BLACK;
+        p.white_to_move = true;
+        if !p.is_legal_position() {
+            continue;
+        }
+        let mut pre = vec![];
+        let mut q = p.clone();
+        // double step, then promotions while there are any (pawns on the seventh keep coming)
+        let ds = Mv { from: sq(f, 1), to: sq(f, 3), promo: 0 };
+        if !q.legal_moves().contains(&ds) {
+            continue;
+        }
+        q = q.apply(ds);
+        pre.push(ds);
+        for _ in 0..2 + rng.below(2) {
+            let promos: Vec<Mv> = q.legal_moves().into_iter().filter(|m| m.promo != 0).collect();
+            if promos.is_empty() {
+                break;
+            }
+            let m = *rng.pick(&promos);
+            q = q.apply(m);
+            pre.push(m);
+        }
+        if pre.len() < 3 {
+            continue;
+        }
+        return (p, pre);
+    }
+}
+
+/// Positions in which the only legal moves are of a special kind, with the way they were reached
+/// where that matters: `pre` + `mv` (a double step) leads to `pos`.
+#[derive(Clone, Debug)]
+pub struct ForcedSpecial {
+    pub pre: Option<(Pos, Mv)>,
+    pub pos: Pos,
+    pub kind: &'static str,
+}
+
+/// (found once per process with a fixed seed, so every run and every replay sees the same pool)
+pub fn forced_special_pool() -> &'static Vec<ForcedSpecial> {
+    static POOL: std::sync::OnceLock<Vec<ForcedSpecial>> = std::sync::OnceLock::new();
+    POOL.get_or_init(|| {
+        let mut rng = Rng::new(0x5EC1A1);
+        let mut v: Vec<ForcedSpecial> = vec![];
+        let mut n_check = 0;
+        let mut n_quiet = 0;
+        let mut n_promo = 0;
+        let mut tries = 0;
+        // (1) the only legal move is an en-passant capture, of a checking pawn or of a quiet one
+        while (n_check < 24 || n_quiet < 12) && tries < 400_000 {
+            tries += 1;
+            let mut p = Pos::empty();
+            let f = 1 + rng.below(6) as i32;
+            let df = if rng.chance(1, 2) { 1 } else { -1 };
+            p.sq[sq(f, 4) as usize] = PAWN; // the capturer
+            p.sq[sq(f + df, 6) as usize] = PAWN | BLACK; // about to double-step
+            let want_check = n_check < 24 && (n_quiet >= 12 || rng.chance(2, 3));
+            let wk = if want_check {
+                // attacked by the pawn once it stands on (f+df, 4)
+                let side = if rng.chance(1, 2) { 1 } else { -1 };
+                if !(0..8).contains(&(f + df + side)) {
+                    continue;
+                }
+                sq(f + df + side, 3)
+            } else {
+                sq(rng.below(8) as i32, rng.below(8) as i32)
+            };
+            if p.sq[wk as usize] != 0 {
+                continue;
+            }
+            p.sq[wk as usize] = KING;
+            let bk = sq(rng.below(8) as i32, 4 + rng.below(4) as i32);
+            if p.sq[bk as usize] != 0 {
+                continue;
+            }
+            p.sq[bk as usize] = KING | BLACK;
+            for _ in 0..2 + rng.below(4) {
+                let s = rng.below(64) as u8;
+                if p.sq[s as usize] == 0 {
+                    p.sq[s as usize] = *rng.pick(&[ROOK, ROOK, QUEEN, KNIGHT, BISHOP]) | BLACK;
+                }
+            }
+            if !want_check {
+                // block the capturer's own advance so that en passant can be the only move
+                if p.sq[sq(f, 5) as usize] == 0 {
+                    p.sq[sq(f, 5) as usize] = *rng.pick(&[PAWN, KNIGHT, BISHOP]) | BLACK;
+                }
+            }
+            p.white_to_move = false;
+            if !p.is_legal_position() {
+                continue;
+            }
+            let ds = Mv { from: sq(f + df, 6), to: sq(f + df, 4), promo: 0 };
+            if !p.legal_moves().contains(&ds) {
+                continue;
+            }
+            let q = p.apply(ds);
+            let ms = q.legal_moves();
+            if ms.len() == 1 && q.is_ep_capture(ms[0]) {
+                let checking = q.in_check(true);
+                if checking && n_check < 24 {
+                    n_check += 1;
+                    v.push(ForcedSpecial { pre: Some((p, ds)), pos: q, kind: "only-move-ep-of-checking-pawn" });
+                } else if !checking && n_quiet < 12 {
+                    n_quiet += 1;
+                    v.push(ForcedSpecial { pre: Some((p, ds)), pos: q, kind: "only-move-ep" });
+                }
+            }
+        }
+        // (2) every legal move is a promotion
+        tries = 0;
+        while n_promo < 16 && tries < 200_000 {
+            tries += 1;
+            let p = template_promotion(&mut rng);
+            let ms = p.legal_moves();
+            if !ms.is_empty() && ms.iter().all(|m| m.promo != 0) {
+                n_promo += 1;
+                v.push(ForcedSpecial { pre: None, pos: p, kind: "only-moves-promotions" });
+            }
+        }
+        // colour-mirrored twins
+        let twins: Vec<ForcedSpecial> = v
+            .iter()
+            .map(|x| ForcedSpecial {
+                pre: x.pre.as_ref().map(|(p, m)| (mirror(p), Mv { from: mirror_sq(m.from), to: mirror_sq(m.to), promo: m.promo })),
+                pos: mirror(&x.pos),
+                kind: x.kind,
+            })
+            .collect();
+        v.extend(twins);
+        v
+    })
+}
+
 pub fn is_castle_lookalike(p: &Pos, m: Mv) -> bool {
     let k = kind(p.sq[m.from as usize]);
     let pairs = [(4u8, 6u8), (4, 2), (60, 62), (60, 58)];
@@ -559,9 +738,45 @@ pub fn shuffle_game(rng: &mut Rng, start: &Pos, reps: usize, interleave: usize) 
     out
 }
 
+fn rng_small(rng: &mut Rng, max_plies: usize) -> usize {
+    rng.below(1 + max_plies.min(8) as u64) as usize
+}
+
 /// The shared mix: a start position by source, extended by a short referee walk, then a game.
 pub fn gen_game(rng: &mut Rng, max_plies: usize) -> Game {
-    let src = rng.below(10);
+    let src = rng.below(12);
+    if src == 10 {
+        // pawn race: forced prefix (double step, promotion, promotion ...), then a walk
+        let (start, mut moves) = template_pawn_race(rng);
+        let (start, moves) = if rng.chance(1, 2) {
+            (mirror(&start), moves.iter().map(|m| Mv { from: mirror_sq(m.from), to: mirror_sq(m.to), promo: m.promo }).collect::<Vec<_>>())
+        } else {
+            (start, std::mem::take(&mut moves))
+        };
+        let mut moves = moves;
+        let mut p = start.clone();
+        for m in &moves {
+            p = p.apply(*m);
+        }
+        let k = rng_small(rng, max_plies);
+        let more = random_walk(rng, &p, k, Bias::Tactical);
+        moves.extend(more);
+        moves.truncate(max_plies.max(3));
+        return Game { start, moves, source: "tmpl-pawn-race" };
+    }
+    if src == 11 && !forced_special_pool().is_empty() {
+        // the only legal moves are special ones; reached by the double step where there is one
+        let x = rng.pick(forced_special_pool()).clone();
+        let (start, mut moves) = match &x.pre {
+            Some((pre, m)) if rng.chance(2, 3) => (pre.clone(), vec![*m]),
+            _ => (x.pos.clone(), vec![]),
+        };
+        let k = if rng.chance(1, 2) { 0 } else { rng_small(rng, max_plies) };
+        let more = random_walk(rng, &x.pos, k, Bias::Tactical);
+        moves.extend(more);
+        moves.truncate(max_plies.max(1));
+        return Game { start, moves, source: "forced-special" };
+    }
     let (mut start, source): (Pos, &'static str) = match src {
         0 | 1 => (Pos::start(), "start"),
         2 | 3 => (Pos::from_fen(*rng.pick(CURATED)).unwrap(), "curated"),
